@@ -483,6 +483,7 @@ class ContinuousPagingSession(object):
         self._page_queue = deque()
         self._state = state
         self.released = False
+        self._failed = False
 
     def on_message(self, result):
         if isinstance(result, ResultMessage):
@@ -492,11 +493,13 @@ class ContinuousPagingSession(object):
 
     def on_page(self, result):
         with self._condition:
-            if self._state:
-                self._state.num_pages_received += 1
-            self._page_queue.appendleft((result.column_names, result.parsed_rows, None))
-            self._stop |= result.continuous_paging_last
-            self._condition.notify()
+            # once failed, cancelled or complete nothing more is delivered
+            if not self._stop:
+                if self._state:
+                    self._state.num_pages_received += 1
+                self._page_queue.appendleft((result.column_names, result.parsed_rows, None))
+                self._stop |= result.continuous_paging_last
+                self._condition.notify()
 
         if result.continuous_paging_last:
             self.released = True
@@ -508,6 +511,10 @@ class ContinuousPagingSession(object):
         log.debug("Got error %s for session %s", error, self.stream_id)
 
         with self._condition:
+            if self._failed:
+                # report a failure once (e.g. defunct() and the frame's own callback)
+                return
+            self._failed = True
             self._page_queue.appendleft((None, None, error))
             self._stop = True
             self._condition.notify()
